@@ -1,10 +1,1236 @@
-//! Family `resolve` — stub (replaced by the unit that owns this family).
+//! Family `resolve` (C09, C04-static, and the resolver part of C01/C06): the real front end's
+//! resolver against the Lean model `Model/Resolve.lean`.
+//!
+//! ```text
+//! resolve <hex src> [exp=<tag>] ast=<unannotated AST line of the real parser>
+//!    -> diags=<ERROR-severity diagnostics of the resolver> ast=<annotated AST, spans on>
+//!       fns=… scopes=… locals=… stmts=… directs=… calls=…   (see factsio.rs)   end=<ok|panic>
+//! wf <hex src> [exp=<tag>] ast=<…>
+//!    -> viol=<the resolver's diagnostics of the *scoping* rules>   (the Lean side answers with the
+//!       violations computed by the declarative specification `Spec/WF.lean`, not by the model)
+//! ```
+//! The analysis warnings (`emit_analysis_warnings`: unreachable code, unused assignment / variable /
+//! function, analysis limit) all have severity warning and are filtered out; `check_*` itself only
+//! emits errors. `end=panic` means `Resolver::resolve` panicked (the facts printed are those collected
+//! before the panic; the pointer tables are finalised before the analysis passes run).
+//!
+//! `run` also evaluates oracles that need no model and reports `ORACLE-FAIL <line> <what>` on stderr:
+//! every binding annotation points to a local / function of the occurrence's name; an accepted program
+//! has no `comot`/`next` outside a loop of the same function body and no `return` outside a function;
+//! and the expectation `exp=` the generator attached (`ok` = a well-formed program must be accepted,
+//! `<rule>@<context>` = a diagnostic of the rule's category must be reported,
+//! `finding:<id>:<shape>:<accept|reject>` = witness of a known defect, checked by `checks/c09.py`).
+//!
+//! Other actions: `gen --seed S --n N --kind valid|viol|mixed|findings`, `mk` (source lines on stdin
+//! -> request lines), `probe-types` (prints the probed static type tables).
 
-pub fn main(_args: &[String]) -> i32 {
-    eprintln!("family resolve: not built yet");
-    2
+#[path = "factsio.rs"]
+mod factsio_local;
+
+use naijascript::analysis::effects::{self, ExprClass};
+use naijascript::analysis::facts::ProgramFacts;
+use naijascript::arena::Arena;
+use naijascript::builtins::{
+    ArrayBuiltin, Builtin, GlobalBuiltin, MemberBuiltin, NumberBuiltin, ProcessCommandBuiltin, ProcessResultBuiltin,
+    StringBuiltin,
+};
+use naijascript::diagnostics::{Diagnostic, Severity, Span};
+use naijascript::helpers::ValueType;
+use naijascript::resolver::Resolver;
+use naijascript::syntax::parser::{BlockRef, Expr, ExprRef, Parser, Stmt, StmtRef, StringParts, StringSegment};
+use naijascript::syntax::scanner::Lexer;
+
+use crate::astio::{self, Opts};
+use crate::pipeline;
+use crate::util::{self, Out, Rng};
+
+pub fn main(args: &[String]) -> i32 {
+    match args.first().map(String::as_str) {
+        Some("gen") => generate(&args[1..]),
+        Some("run") => run(),
+        Some("mk") => mk(&args[1..]),
+        Some("probe-types") => {
+            let mut kv = Vec::new();
+            dump_tables(&mut kv);
+            for (k, v) in kv {
+                println!("{k} = {v}");
+            }
+            0
+        }
+        _ => {
+            eprintln!("usage: nvh resolve gen --seed S --n N --kind K | run | mk [--exp TAG] | probe-types");
+            2
+        }
+    }
 }
 
-/// Constants/tables of the compiled crate this family wants in `nvh dump-tables`
-/// (JSON key, JSON value text).
-pub fn dump_tables(_out: &mut Vec<(String, String)>) {}
+// ------------------------------------------------------------------------------------------ run
+
+fn diag_str(x: &Diagnostic<'_>) -> String {
+    format!(
+        "{}:{}:{}:{}:{}",
+        pipeline::sev_name(x.severity),
+        x.code,
+        x.message.replace([' ', ',', ':'], "_"),
+        x.span.start,
+        x.span.end
+    )
+}
+
+fn diags_join(v: Vec<String>) -> String {
+    if v.is_empty() { "-".to_string() } else { v.join(",") }
+}
+
+fn run() -> i32 {
+    util::silence_panics();
+    let mut out = Out::new();
+    for (i, line) in util::stdin_lines().iter().enumerate() {
+        let ans = util::catch(|| answer(line, i + 1)).unwrap_or_else(|m| format!("panic {}", m.replace('\n', " ")));
+        out.line(&ans);
+    }
+    0
+}
+
+struct Req<'l> {
+    kind: &'l str,
+    src: String,
+    exp: Option<&'l str>,
+    ast: &'l str,
+}
+
+fn parse_req(line: &str) -> Option<Req<'_>> {
+    let (head, ast) = line.split_once(" ast=")?;
+    let w: Vec<&str> = head.split_whitespace().collect();
+    let kind = *w.first()?;
+    let src = String::from_utf8(util::unhex(w.get(1)?)?).ok()?;
+    let exp = w.iter().find_map(|x| x.strip_prefix("exp="));
+    Some(Req { kind, src, exp, ast: ast.trim() })
+}
+
+fn answer(line: &str, lineno: usize) -> String {
+    let Some(req) = parse_req(line) else { return "bad-op".into() };
+    let arena = Arena::new(pipeline::ARENA_CAP).unwrap();
+    let lexer = Lexer::new(&req.src, &arena);
+    let mut parser = Parser::new(lexer, &arena);
+    let (root, _perrs) = parser.parse_program();
+    let plain = astio::program(&Opts { spans: true, facts: None }, root);
+    if plain != req.ast {
+        return "ast-mismatch".into();
+    }
+    let mut resolver = Resolver::new(&arena);
+    let end = util::catch(|| resolver.resolve(root));
+    let errors: Vec<&Diagnostic<'_>> =
+        resolver.errors.diagnostics.iter().filter(|d| d.severity == Severity::Error).collect();
+    match req.kind {
+        "resolve" => {
+            oracles(root, &resolver.facts, &errors, req.exp, lineno);
+            format!(
+                "diags={} ast={} {} end={}",
+                diags_join(errors.iter().map(|d| diag_str(d)).collect()),
+                astio::program(&Opts { spans: true, facts: Some(&resolver.facts) }, root),
+                factsio_local::facts_str(&resolver.facts),
+                if end.is_ok() { "ok" } else { "panic" }
+            )
+        }
+        "wf" => {
+            let mut member_spans = Vec::new();
+            walk_block(root, &mut |e| {
+                if let Expr::Call { callee: Expr::Member { span, .. }, .. } = e {
+                    member_spans.push(*span);
+                }
+            });
+            let scoping: Vec<String> = errors
+                .iter()
+                .filter(|d| match d.message {
+                    "Type mismatch" => false,
+                    "Undeclared identifier" | "Invalid parameter count" => !member_spans.contains(&d.span),
+                    _ => true,
+                })
+                .map(|d| diag_str(d))
+                .collect();
+            format!("viol={}", diags_join(scoping))
+        }
+        _ => "bad-op".into(),
+    }
+}
+
+// ---------------------------------------------------------------------------------- AST walking
+
+fn walk_expr<'a>(e: ExprRef<'a>, f: &mut dyn FnMut(ExprRef<'a>)) {
+    f(e);
+    match e {
+        Expr::Index { array, index, .. } => {
+            walk_expr(array, f);
+            walk_expr(index, f);
+        }
+        Expr::Binary { lhs, rhs, .. } => {
+            walk_expr(lhs, f);
+            walk_expr(rhs, f);
+        }
+        Expr::Call { callee, args, .. } => {
+            walk_expr(callee, f);
+            for a in args.args {
+                walk_expr(a, f);
+            }
+        }
+        Expr::Array { elements, .. } => {
+            for a in *elements {
+                walk_expr(a, f);
+            }
+        }
+        Expr::Unary { expr, .. } => walk_expr(expr, f),
+        Expr::Member { object, .. } => walk_expr(object, f),
+        Expr::String { .. } | Expr::Number(..) | Expr::Var(..) | Expr::Bool(..) | Expr::Null(..) => {}
+    }
+}
+
+fn walk_stmt_exprs<'a>(s: StmtRef<'a>, f: &mut dyn FnMut(ExprRef<'a>)) {
+    match s {
+        Stmt::FunctionDef { body, .. } => walk_block(body, f),
+        Stmt::Assign { expr, .. } | Stmt::AssignExisting { expr, .. } | Stmt::Expression { expr, .. } => walk_expr(expr, f),
+        Stmt::AssignIndex { target, expr, .. } => {
+            walk_expr(target, f);
+            walk_expr(expr, f);
+        }
+        Stmt::If { cond, then_b, else_b, .. } => {
+            walk_expr(cond, f);
+            walk_block(then_b, f);
+            if let Some(b) = else_b {
+                walk_block(b, f);
+            }
+        }
+        Stmt::Loop { cond, body, .. } => {
+            walk_expr(cond, f);
+            walk_block(body, f);
+        }
+        Stmt::Block { block, .. } => walk_block(block, f),
+        Stmt::Return { expr, .. } => {
+            if let Some(e) = expr {
+                walk_expr(e, f);
+            }
+        }
+        Stmt::Break { .. } | Stmt::Continue { .. } => {}
+    }
+}
+
+fn walk_block<'a>(b: BlockRef<'a>, f: &mut dyn FnMut(ExprRef<'a>)) {
+    for s in b.stmts {
+        walk_stmt_exprs(s, f);
+    }
+}
+
+fn walk_stmts<'a>(b: BlockRef<'a>, f: &mut dyn FnMut(StmtRef<'a>)) {
+    for s in b.stmts {
+        f(s);
+        match s {
+            Stmt::FunctionDef { body, .. } | Stmt::Loop { body, .. } => walk_stmts(body, f),
+            Stmt::If { then_b, else_b, .. } => {
+                walk_stmts(then_b, f);
+                if let Some(b) = else_b {
+                    walk_stmts(b, f);
+                }
+            }
+            Stmt::Block { block, .. } => walk_stmts(block, f),
+            _ => {}
+        }
+    }
+}
+
+/// `comot`/`next` outside a loop of the same function body, `return` outside a function.
+fn jump_violations(b: BlockRef<'_>, loops: usize, in_fn: bool, out: &mut Vec<Span>) {
+    let mut defined: Vec<&str> = Vec::new();
+    for s in b.stmts {
+        match s {
+            // the body of a rejected duplicate definition is not analysed
+            Stmt::FunctionDef { name, .. } if defined.contains(name) => {}
+            Stmt::FunctionDef { name, body, .. } => {
+                defined.push(name);
+                jump_violations(body, 0, true, out);
+            }
+            Stmt::Loop { body, .. } => jump_violations(body, loops + 1, in_fn, out),
+            Stmt::If { then_b, else_b, .. } => {
+                jump_violations(then_b, loops, in_fn, out);
+                if let Some(b) = else_b {
+                    jump_violations(b, loops, in_fn, out);
+                }
+            }
+            Stmt::Block { block, .. } => jump_violations(block, loops, in_fn, out),
+            Stmt::Break { span } | Stmt::Continue { span } if loops == 0 => out.push(*span),
+            Stmt::Return { span, .. } if !in_fn => out.push(*span),
+            _ => {}
+        }
+    }
+}
+
+fn rule_message(rule: &str) -> Option<&'static str> {
+    Some(match rule {
+        "reservedVar" | "reservedFn" | "reservedParam" => "Use of reserved keyword",
+        "dupFunction" | "dupParam" => "Duplicate identifier",
+        "undeclaredVar" | "undeclaredSeg" | "undeclaredFn" | "methodUnknown" => "Undeclared identifier",
+        "assignUndeclared" => "Assignment to undeclared variable",
+        "arityUser" | "arityGlobal" | "arityMethod" => "Invalid parameter count",
+        "breakOutside" | "continueOutside" | "returnOutside" => "Unreachable code",
+        "tyBinary" | "tyUnary" | "tyCond" | "tyIndexBase" | "tyIndexIdx" | "tyCommandArg" | "tyMethodArg"
+        | "tyMutReceiver" => "Type mismatch",
+        _ => return None,
+    })
+}
+
+fn oracles<'a>(
+    root: BlockRef<'a>,
+    facts: &ProgramFacts<'a, 'a>,
+    errors: &[&Diagnostic<'_>],
+    exp: Option<&str>,
+    lineno: usize,
+) {
+    let mut fails: Vec<String> = Vec::new();
+    let lname = |id: u32| facts.locals.get(id as usize).map(|l| l.name);
+    walk_block(root, &mut |e| match e {
+        Expr::Var(v, ..) => {
+            if let Some(l) = facts.expr_local(e)
+                && lname(l.0) != Some(*v)
+            {
+                fails.push(format!("expr_local of `{v}` is local {} named {:?}", l.0, lname(l.0)));
+            }
+        }
+        Expr::String { parts: StringParts::Interpolated(segs), .. } => {
+            for (i, seg) in segs.iter().enumerate() {
+                if let StringSegment::Variable(v) = seg
+                    && let Some(l) = facts.string_segment_local(e, i as u32)
+                    && lname(l.0) != Some(&**v)
+                {
+                    fails.push(format!("segment `{v}` bound to local {} named {:?}", l.0, lname(l.0)));
+                }
+            }
+        }
+        Expr::Call { callee, args, span } => {
+            if let Some(fid) = facts.user_call_callee(e) {
+                let info = facts.functions.get(fid.0 as usize);
+                match (callee, info) {
+                    (Expr::Var(name, ..), Some(info)) => {
+                        if info.name != *name {
+                            fails.push(format!("call of `{name}` bound to function `{}`", info.name));
+                        }
+                        let arity = info.params.map_or(0, |p| p.params.len());
+                        let reported = errors.iter().any(|d| d.message == "Invalid parameter count" && d.span == *span);
+                        if (arity != args.args.len()) != reported {
+                            fails.push(format!("call of `{name}` with {} args, arity {arity}, arity error reported: {reported}", args.args.len()));
+                        }
+                    }
+                    _ => fails.push("bound call whose callee is not a name or whose function id is out of range".into()),
+                }
+            }
+        }
+        _ => {}
+    });
+    walk_stmts(root, &mut |s| {
+        if let Stmt::Assign { var, .. } | Stmt::AssignExisting { var, .. } = s
+            && let Some(l) = facts.stmt_local(s)
+            && lname(l.0) != Some(*var)
+        {
+            fails.push(format!("stmt_local of `{var}` is local {} named {:?}", l.0, lname(l.0)));
+        }
+    });
+    // accepted => jumps are well placed
+    let mut jumps = Vec::new();
+    jump_violations(root, 0, false, &mut jumps);
+    for sp in &jumps {
+        if !errors.iter().any(|d| d.message == "Unreachable code" && d.span == *sp) {
+            fails.push(format!("jump-outside-context at {}:{} not reported", sp.start, sp.end));
+        }
+    }
+    if let Some(exp) = exp {
+        if exp == "ok" {
+            if let Some(d) = errors.first() {
+                fails.push(format!("well-formed program rejected: {}", diag_str(d)));
+            }
+        } else if let Some((rule, _ctx)) = exp.split_once('@')
+            && let Some(msg) = rule_message(rule)
+            && !errors.iter().any(|d| d.message == msg)
+        {
+            fails.push(format!("violation of {exp} not reported as `{msg}`"));
+        }
+    }
+    for f in fails {
+        eprintln!("ORACLE-FAIL {lineno} {f}");
+    }
+}
+
+// --------------------------------------------------------------------------------------- mk
+
+fn request_line(kind: &str, src: &str, exp: Option<&str>) -> String {
+    let arena = Arena::new(pipeline::ARENA_CAP).unwrap();
+    let ast = pipeline::with_parsed(src, &arena, |root, _| astio::program(&Opts { spans: true, facts: None }, root));
+    match exp {
+        Some(e) => format!("{kind} {} exp={e} ast={ast}", util::hex(src.as_bytes())),
+        None => format!("{kind} {} ast={ast}", util::hex(src.as_bytes())),
+    }
+}
+
+/// Source programs on stdin, one per line (`\n` inside a program written as the two characters
+/// `\` `n`); optional leading `exp=<tag> ` on a line.
+fn mk(args: &[String]) -> i32 {
+    let default_exp = util::opt(args, "--exp");
+    let mut out = Out::new();
+    for line in util::stdin_lines() {
+        let line = line.trim();
+        if line.is_empty() || line.starts_with("##") {
+            continue;
+        }
+        let (exp, src) = match line.strip_prefix("exp=") {
+            Some(rest) => {
+                let (e, s) = rest.split_once(' ').unwrap_or((rest, ""));
+                (Some(e.to_string()), s)
+            }
+            None => (default_exp.map(str::to_string), line),
+        };
+        let src = src.replace("\\n", "\n");
+        out.line(&request_line("resolve", &src, exp.as_deref()));
+    }
+    0
+}
+
+// ------------------------------------------------------------------------------------ tables
+
+const TYPES: &[(&str, &str)] = &[
+    ("number", "1"),
+    ("string", "\"s\""),
+    ("boolean", "true"),
+    ("array", "[1]"),
+    ("process_command", "command(\"x\")"),
+    ("process_result", "command(\"x\").run()"),
+    ("dynamic", "p"),
+    ("null", "null"),
+];
+
+const BINOPS: &[(&str, &str)] = &[
+    ("add", "add"),
+    ("minus", "minus"),
+    ("times", "times"),
+    ("divide", "divide"),
+    ("mod", "mod"),
+    ("and", "and"),
+    ("or", "or"),
+    ("eq", "na"),
+    ("gt", "pass"),
+    ("lt", "small pass"),
+];
+
+/// Error diagnostics (message, first label text) of the real resolver on `src`.
+fn probe(src: &str) -> Vec<(String, String)> {
+    let arena = Arena::new(pipeline::ARENA_CAP).unwrap();
+    pipeline::with_resolved(src, &arena, |_, perrs, res| {
+        let res = res.unwrap_or_else(|| panic!("probe program does not parse: {src}: {}", pipeline::diags_str(perrs)));
+        res.errors
+            .diagnostics
+            .iter()
+            .filter(|d| d.severity == Severity::Error)
+            .map(|d| (d.message.to_string(), d.labels.first().map_or(String::new(), |l| l.message.to_string())))
+            .collect()
+    })
+}
+
+fn has(d: &[(String, String)], msg: &str) -> bool {
+    d.iter().any(|(m, _)| m == msg)
+}
+
+/// The static type the resolver infers for `expr` inside `do pr(p) start <prelude> … end`: a
+/// non-dynamic type is observed through the diagnostic of an unknown method on it; `Some(Dynamic)`
+/// and `None` are told apart by indexing it (`None[0]` is a type mismatch, `Dynamic[0]` is not).
+/// JSON `null` = not inferable.
+fn probe_type(prelude: &str, expr: &str) -> String {
+    let d = probe(&format!("do pr(p) start {prelude} make d get ({expr}).zzzz() end"));
+    for (m, l) in &d {
+        if m == "Undeclared identifier"
+            && let Some(rest) = l.strip_prefix("Method `zzzz` no dey for ")
+            && let Some(t) = rest.strip_suffix(" type")
+        {
+            return format!("\"{t}\"");
+        }
+    }
+    let mismatches = |src: String| probe(&src).iter().filter(|(m, _)| m == "Type mismatch").count();
+    let plain = mismatches(format!("do pr(p) start {prelude} make d get ({expr}) end"));
+    let indexed = mismatches(format!("do pr(p) start {prelude} make d get ({expr})[0] end"));
+    if indexed == plain { "\"dynamic\"".to_string() } else { "null".to_string() }
+}
+
+fn vt_name(t: ValueType) -> String {
+    t.to_string()
+}
+
+pub fn dump_tables(out: &mut Vec<(String, String)>) {
+    // operators, probed on the real checker
+    let mut rows = Vec::new();
+    for (op, kw) in BINOPS {
+        for (ln, le) in TYPES {
+            for (rn, re) in TYPES {
+                let prelude = format!("make a get {le} make b get {re}");
+                let d = probe(&format!("do pr(p) start {prelude} make c get a {kw} b end"));
+                let ok = !has(&d, "Type mismatch");
+                let ty = probe_type(&prelude, &format!("a {kw} b"));
+                rows.push(format!("[\"{op}\",\"{ln}\",\"{rn}\",{ok},{ty}]"));
+            }
+        }
+    }
+    out.push(("resolve_binary".into(), format!("[{}]", rows.join(","))));
+    let mut rows = Vec::new();
+    for (op, kw) in [("not", "not"), ("neg", "minus")] {
+        for (tn, te) in TYPES {
+            let prelude = format!("make a get {te}");
+            let d = probe(&format!("do pr(p) start {prelude} make c get {kw} a end"));
+            let ok = !has(&d, "Type mismatch");
+            let ty = probe_type(&prelude, &format!("{kw} a"));
+            rows.push(format!("[\"{op}\",\"{tn}\",{ok},{ty}]"));
+        }
+    }
+    out.push(("resolve_unary".into(), format!("[{}]", rows.join(","))));
+    let single = |template: &str| -> String {
+        let rows: Vec<String> = TYPES
+            .iter()
+            .map(|(tn, te)| {
+                let d = probe(&format!("do pr(p) start make a get {te} make arr get [1] make cmd get command(\"x\") {template} end"));
+                format!("[\"{tn}\",{}]", !has(&d, "Type mismatch"))
+            })
+            .collect();
+        format!("[{}]", rows.join(","))
+    };
+    out.push(("resolve_cond".into(), single("if to say (a) start end")));
+    out.push(("resolve_loop_cond".into(), single("jasi (a) start end")));
+    out.push(("resolve_index_base".into(), single("make z get a[0]")));
+    out.push(("resolve_index_idx".into(), single("make z get arr[a]")));
+    out.push(("resolve_command_arg".into(), single("make z get command(a)")));
+    out.push(("resolve_join_arg".into(), single("make z get arr.join(a)")));
+    out.push(("resolve_cwd_arg".into(), single("cmd.cwd(a)")));
+    out.push(("resolve_env_arg".into(), single("cmd.env(a, \"v\")")));
+    out.push(("resolve_timeout_arg".into(), single("cmd.timeout_ms(a)")));
+    // literal types
+    let lits: Vec<String> = [("number", "1"), ("string", "\"s\""), ("string", "\"a {p}\""), ("boolean", "false"), ("array", "[]"), ("null", "null"), ("dynamic", "p[0]"), ("dynamic", "p.q")]
+        .iter()
+        .map(|(want, e)| format!("[\"{want}\",{}]", probe_type("", e)))
+        .collect();
+    out.push(("resolve_literal_types".into(), format!("[{}]", lits.join(","))));
+    // builtins, through the pub trait methods
+    let cls = |c: ExprClass| factsio_local::class_name(c);
+    let globals: Vec<String> = GLOBAL_NAMES
+        .iter()
+        .filter_map(|n| GlobalBuiltin::from_name(n).map(|b| (n, b)))
+        .map(|(n, b)| format!("[\"{n}\",{},\"{}\",\"{}\"]", b.arity(), vt_name(b.return_type()), cls(effects::global_builtin_class(b))))
+        .collect();
+    out.push(("resolve_globals".into(), format!("[{}]", globals.join(","))));
+    let mut members = Vec::new();
+    let mut row = |kind: &str, n: &str, b: MemberBuiltin| {
+        members.push(format!(
+            "[\"{kind}\",\"{n}\",{},\"{}\",{},\"{}\"]",
+            b.arity(),
+            vt_name(b.return_type()),
+            b.requires_mut_receiver(),
+            cls(effects::member_builtin_class(b))
+        ));
+    };
+    for n in MEMBER_NAMES {
+        if let Some(b) = StringBuiltin::from_name(n) {
+            row("string", n, MemberBuiltin::String(b));
+        }
+    }
+    for n in MEMBER_NAMES {
+        if let Some(b) = ArrayBuiltin::from_name(n) {
+            row("array", n, MemberBuiltin::Array(b));
+        }
+    }
+    for n in MEMBER_NAMES {
+        if let Some(b) = NumberBuiltin::from_name(n) {
+            row("number", n, MemberBuiltin::Number(b));
+        }
+    }
+    for n in MEMBER_NAMES {
+        if let Some(b) = ProcessCommandBuiltin::from_name(n) {
+            row("process_command", n, MemberBuiltin::ProcessCommand(b));
+        }
+    }
+    for n in MEMBER_NAMES {
+        if let Some(b) = ProcessResultBuiltin::from_name(n) {
+            row("process_result", n, MemberBuiltin::ProcessResult(b));
+        }
+    }
+    out.push(("resolve_members".into(), format!("[{}]", members.join(","))));
+    // MemberBuiltin::from_name: which kind wins for each name
+    let any: Vec<String> = MEMBER_NAMES
+        .iter()
+        .filter_map(|n| MemberBuiltin::from_name(n).map(|b| (n, b)))
+        .map(|(n, b)| {
+            let k = match b {
+                MemberBuiltin::String(..) => "string",
+                MemberBuiltin::Array(..) => "array",
+                MemberBuiltin::Number(..) => "number",
+                MemberBuiltin::ProcessCommand(..) => "process_command",
+                MemberBuiltin::ProcessResult(..) => "process_result",
+            };
+            format!("[\"{n}\",\"{k}\"]")
+        })
+        .collect();
+    out.push(("resolve_member_any".into(), format!("[{}]", any.join(","))));
+    out.push((
+        "resolve_builtin_candidates".into(),
+        format!("[{}]", GLOBAL_NAMES.iter().chain(MEMBER_NAMES.iter()).map(|n| format!("\"{n}\"")).collect::<Vec<_>>().join(",")),
+    ));
+    let classes = [ExprClass::PureNoTrap, ExprClass::PureMayTrap, ExprClass::Impure];
+    let mut join = Vec::new();
+    for a in classes {
+        for b in classes {
+            join.push(format!("[\"{}\",\"{}\",\"{}\"]", cls(a), cls(b), cls(a.join(b))));
+        }
+    }
+    out.push(("resolve_class_join".into(), format!("[{}]", join.join(","))));
+    // behaviour probes: how `locals_len` is computed (D-18) and whether `in_loop` leaks into function bodies (D-09a)
+    let arena = Arena::new(pipeline::ARENA_CAP).unwrap();
+    let len = pipeline::with_resolved("make a get 1 do f() start make b get 1 shout(b) end make c get 2 shout(a) shout(c) f()", &arena, |_, _, r| {
+        r.map_or(0, |r| r.facts.functions[0].locals_len)
+    });
+    out.push(("resolve_root_locals_len_probe".into(), len.to_string()));
+    let leak = !has(&probe("jasi (true) start do f() start comot end end"), "Unreachable code");
+    out.push(("resolve_in_loop_leaks_into_functions".into(), leak.to_string()));
+}
+
+const GLOBAL_NAMES: &[&str] = &["shout", "typeof", "read_line", "to_string", "command"];
+
+const MEMBER_NAMES: &[&str] = &[
+    "len", "slice", "to_uppercase", "to_lowercase", "find", "replace", "trim", "to_number", "split", "push", "pop",
+    "reverse", "join", "abs", "sqrt", "floor", "ceil", "round", "arg", "cwd", "env", "stdin_text", "stdin_inherit",
+    "stdin_null", "stdout_capture", "stdout_inherit", "stdout_null", "stderr_capture", "stderr_inherit", "stderr_null",
+    "timeout_ms", "run", "success", "exit_code", "stdout", "stderr",
+];
+
+// ------------------------------------------------------------------------------------ generator
+
+#[derive(Clone, Copy, PartialEq, Eq, Debug)]
+enum Ty {
+    Num,
+    Str,
+    Bool,
+    Arr,
+    /// statically `Dynamic` (parameters, index results): accepted in every typed context
+    Dyn,
+    /// unknown to the generator (results of user functions): used only where any type is accepted
+    Unk,
+}
+
+#[derive(Default)]
+struct Frame {
+    vars: Vec<(String, Ty)>,
+    fns: Vec<(String, usize)>,
+}
+
+const VARS: &[&str] = &["a", "b", "c", "x", "y", "n", "s", "t"];
+const FNS: &[&str] = &["f", "g", "h", "k"];
+
+struct Gen<'r> {
+    rng: &'r mut Rng,
+    frames: Vec<Frame>,
+    loops: usize,
+    in_fn: bool,
+    path: String,
+    /// countdown of injection opportunities; the violation is injected when it reaches 0
+    inject: Option<i64>,
+    injected: Option<String>,
+    /// generate without regard to the static rules
+    wild: bool,
+    budget: i64,
+    fresh: usize,
+    /// > 0 while generating the operand of a unary operator: no statically dynamic operand there
+    /// (the checker cannot type `minus p` / `not p` for a dynamic `p`: finding D-09e)
+    nodyn: usize,
+}
+
+impl Gen<'_> {
+    fn visible(&self) -> Vec<(String, Ty)> {
+        let mut out: Vec<(String, Ty)> = Vec::new();
+        for fr in self.frames.iter().rev() {
+            for (n, t) in fr.vars.iter().rev() {
+                if !out.iter().any(|(m, _)| m == n) {
+                    out.push((n.clone(), *t));
+                }
+            }
+        }
+        out
+    }
+
+    fn visible_fns(&self) -> Vec<(String, usize)> {
+        let mut out: Vec<(String, usize)> = Vec::new();
+        for fr in self.frames.iter().rev() {
+            for (n, a) in &fr.fns {
+                if !out.iter().any(|(m, _)| m == n) {
+                    out.push((n.clone(), *a));
+                }
+            }
+        }
+        out
+    }
+
+    fn var_of(&mut self, want: &[Ty]) -> Option<String> {
+        let nodyn = self.nodyn > 0;
+        let v: Vec<(String, Ty)> =
+            self.visible().into_iter().filter(|(_, t)| want.contains(t) && !(nodyn && *t == Ty::Dyn)).collect();
+        if v.is_empty() { None } else { Some(self.rng.pick(&v).0.clone()) }
+    }
+
+    fn unbound_name(&mut self) -> String {
+        let vis = self.visible();
+        let free: Vec<&&str> = VARS.iter().filter(|n| !vis.iter().any(|(m, _)| m == **n)).collect();
+        if !free.is_empty() && self.rng.chance(2, 3) {
+            (**self.rng.pick(&free)).to_string()
+        } else {
+            self.fresh += 1;
+            format!("u{}", self.fresh)
+        }
+    }
+
+    /// Is this the opportunity at which the violation is injected?
+    fn hit(&mut self) -> bool {
+        match self.inject {
+            Some(0) if self.injected.is_none() => true,
+            Some(n) if n > 0 => {
+                self.inject = Some(n - 1);
+                false
+            }
+            _ => false,
+        }
+    }
+
+    fn mark(&mut self, rule: &str, site: &str) {
+        let path = if self.path.is_empty() { "top".to_string() } else { self.path.clone() };
+        self.injected = Some(format!("{rule}@{path}:{site}"));
+    }
+
+    fn lit(&mut self, t: Ty) -> String {
+        match t {
+            Ty::Num => ["0", "1", "2", "3.5", "10"][self.rng.below(5) as usize].to_string(),
+            Ty::Str => self.string_lit("expr"),
+            Ty::Bool => (if self.rng.chance(1, 2) { "true" } else { "false" }).to_string(),
+            Ty::Arr => "[1, 2]".to_string(),
+            Ty::Dyn | Ty::Unk => "null".to_string(),
+        }
+    }
+
+    fn string_lit(&mut self, site: &str) -> String {
+        let vis = self.visible();
+        if self.hit() {
+            let n = self.unbound_name();
+            self.mark("undeclaredSeg", &format!("{site}-istr"));
+            return format!("\"v {{{n}}} w\"");
+        }
+        if !vis.is_empty() && self.rng.chance(1, 3) {
+            let a = self.rng.pick(&vis).0.clone();
+            let b = self.rng.pick(&vis).0.clone();
+            return if self.rng.chance(1, 2) { format!("\"p {{{a}}} q\"") } else { format!("\"{{{a}}}{{{b}}}!\"") };
+        }
+        ["\"\"", "\"hi\"", "\"a b\"", "\"ẹ́\""][self.rng.below(4) as usize].to_string()
+    }
+
+    /// A violating expression for an expression-position opportunity.
+    fn bad_expr(&mut self, site: &str) -> String {
+        let fns = self.visible_fns();
+        loop {
+            let (rule, text): (&str, String) = match self.rng.below(13) {
+                0 | 1 => ("undeclaredVar", self.unbound_name()),
+                2 => ("undeclaredFn", format!("nf{}({})", self.rng.below(3), if self.rng.chance(1, 2) { "1" } else { "" })),
+                3 if !fns.is_empty() => {
+                    let (n, a) = self.rng.pick(&fns).clone();
+                    let k = if a > 0 && self.rng.chance(1, 2) { a - 1 } else { a + 1 };
+                    ("arityUser", format!("{n}({})", vec!["1"; k].join(", ")))
+                }
+                4 => ("arityGlobal", ["shout()", "typeof(1, 2)", "to_string()", "shout(1, 2)", "command()", "read_line()"][self.rng.below(6) as usize].to_string()),
+                5 => {
+                    const BAD: &[&str] = &[
+                        "1 minus \"a\"", "\"a\" minus \"b\"", "true add false", "1 add true", "2 times \"x\"", "\"a\" na 1",
+                        "true pass 1", "1 and true", "true or 1", "[1] mod 2", "null divide 2", "1 and 2", "true na \"t\"",
+                        "\"a\" small pass 2", "[1] add 1", "null minus null", "\"s\" times 2", "true divide true",
+                    ];
+                    ("tyBinary", format!("({})", self.rng.pick(BAD)))
+                }
+                6 => ("tyUnary", ["(not 1)", "(not \"a\")", "(minus \"a\")", "(minus true)", "(minus null)", "(not [1])"][self.rng.below(6) as usize].to_string()),
+                7 => ("tyIndexBase", ["1[0]", "\"ab\"[0]", "true[0]", "null[0]"][self.rng.below(4) as usize].to_string()),
+                8 => ("tyIndexIdx", ["[1, 2][true]", "[1][\"a\"]", "[1][null]", "[1][[0]]"][self.rng.below(4) as usize].to_string()),
+                9 => ("methodUnknown", ["\"a\".push(1)", "[1].trim()", "(1).len()", "\"a\".abs()", "[1].zzz()", "command(\"x\").len()"][self.rng.below(6) as usize].to_string()),
+                10 => ("arityMethod", ["\"a\".len(1)", "[1].join()", "\"a\".slice(1)", "(1).abs(2)", "\"a\".find()"][self.rng.below(5) as usize].to_string()),
+                11 => ("tyCommandArg", ["command(1)", "command(true)", "command([1])"][self.rng.below(3) as usize].to_string()),
+                12 => ("tyMethodArg", ["[1].join(2)", "[1].join(true)"][self.rng.below(2) as usize].to_string()),
+                _ => continue,
+            };
+            self.mark(rule, site);
+            return text;
+        }
+    }
+
+    fn expr(&mut self, want: Ty, depth: usize, site: &str) -> String {
+        if self.wild {
+            return self.wild_expr(depth);
+        }
+        if self.hit() {
+            return self.bad_expr(site);
+        }
+        let leaf = depth == 0 || self.rng.chance(1, 3);
+        match want {
+            Ty::Num => {
+                if leaf {
+                    if self.rng.chance(1, 2)
+                        && let Some(v) = self.var_of(&[Ty::Num, Ty::Dyn])
+                    {
+                        return v;
+                    }
+                    return self.lit(Ty::Num);
+                }
+                match self.rng.below(6) {
+                    0..=2 => {
+                        let op = ["add", "minus", "times", "divide", "mod"][self.rng.below(5) as usize];
+                        // `p add q` with two statically dynamic operands is typed *string* by the
+                        // checker (finding D-09e): keep one operand static
+                        self.nodyn += usize::from(op == "add");
+                        let l = self.expr(Ty::Num, depth - 1, site);
+                        self.nodyn -= usize::from(op == "add");
+                        format!("({l} {op} {})", self.expr(Ty::Num, depth - 1, site))
+                    }
+                    3 => {
+                        self.nodyn += 1;
+                        let e = self.expr(Ty::Num, depth - 1, site);
+                        self.nodyn -= 1;
+                        format!("(minus {e})")
+                    }
+                    4 => format!("{}.len()", self.expr(Ty::Str, depth - 1, site)),
+                    _ => {
+                        if self.nodyn > 0 {
+                            return self.lit(Ty::Num);
+                        }
+                        if let Some(v) = self.var_of(&[Ty::Arr, Ty::Dyn]) {
+                            format!("{v}[{}]", self.expr(Ty::Num, depth - 1, "idx"))
+                        } else {
+                            format!("{}.len()", self.expr(Ty::Arr, depth - 1, site))
+                        }
+                    }
+                }
+            }
+            Ty::Str => {
+                if leaf {
+                    if self.rng.chance(1, 2)
+                        && let Some(v) = self.var_of(&[Ty::Str])
+                    {
+                        return v;
+                    }
+                    return self.string_lit(site);
+                }
+                match self.rng.below(6) {
+                    0 | 1 => format!("({} add {})", self.expr(Ty::Str, depth - 1, site), self.expr(Ty::Str, depth - 1, site)),
+                    2 => format!("({} add {})", self.expr(Ty::Str, depth - 1, site), self.expr(Ty::Num, depth - 1, site)),
+                    3 => format!("to_string({})", self.expr(Ty::Unk, depth - 1, "arg")),
+                    4 => format!("typeof({})", self.expr(Ty::Unk, depth - 1, "arg")),
+                    _ => {
+                        let m = ["to_uppercase()", "trim()", "to_lowercase()"][self.rng.below(3) as usize];
+                        format!("{}.{m}", self.expr(Ty::Str, depth - 1, site))
+                    }
+                }
+            }
+            Ty::Bool => {
+                if leaf {
+                    if self.rng.chance(1, 2)
+                        && let Some(v) = self.var_of(&[Ty::Bool, Ty::Dyn])
+                    {
+                        return v;
+                    }
+                    return self.lit(Ty::Bool);
+                }
+                match self.rng.below(6) {
+                    0 | 1 => {
+                        let op = ["na", "pass", "small pass"][self.rng.below(3) as usize];
+                        format!("({} {op} {})", self.expr(Ty::Num, depth - 1, site), self.expr(Ty::Num, depth - 1, site))
+                    }
+                    2 => {
+                        let op = ["na", "pass", "small pass"][self.rng.below(3) as usize];
+                        format!("({} {op} {})", self.expr(Ty::Str, depth - 1, site), self.expr(Ty::Str, depth - 1, site))
+                    }
+                    3 | 4 => {
+                        let op = ["and", "or"][self.rng.below(2) as usize];
+                        format!("({} {op} {})", self.expr(Ty::Bool, depth - 1, site), self.expr(Ty::Bool, depth - 1, site))
+                    }
+                    _ => {
+                        self.nodyn += 1;
+                        let e = self.expr(Ty::Bool, depth - 1, site);
+                        self.nodyn -= 1;
+                        format!("(not {e})")
+                    }
+                }
+            }
+            Ty::Arr => {
+                if leaf
+                    && self.rng.chance(1, 2)
+                    && let Some(v) = self.var_of(&[Ty::Arr])
+                {
+                    return v;
+                }
+                let n = self.rng.below(3);
+                let d = depth.saturating_sub(1);
+                let items: Vec<String> = (0..n).map(|_| self.expr(Ty::Unk, d, "elem")).collect();
+                format!("[{}]", items.join(", "))
+            }
+            Ty::Dyn | Ty::Unk => {
+                let fns = self.visible_fns();
+                if !fns.is_empty() && depth > 0 && self.rng.chance(1, 3) {
+                    let (n, a) = self.rng.pick(&fns).clone();
+                    let args: Vec<String> = (0..a).map(|_| self.expr(Ty::Unk, depth - 1, "arg")).collect();
+                    return format!("{n}({})", args.join(", "));
+                }
+                if leaf
+                    && self.rng.chance(1, 3)
+                    && let Some(v) = self.var_of(&[Ty::Num, Ty::Str, Ty::Bool, Ty::Arr, Ty::Dyn, Ty::Unk])
+                {
+                    return v;
+                }
+                let t = [Ty::Num, Ty::Str, Ty::Bool, Ty::Arr][self.rng.below(4) as usize];
+                self.expr(t, depth, site)
+            }
+        }
+    }
+
+    /// Expressions with no regard to scoping or typing (for the tie only).
+    fn wild_expr(&mut self, depth: usize) -> String {
+        let name = |g: &mut Self| (*g.rng.pick(VARS)).to_string();
+        if depth == 0 || self.rng.chance(1, 3) {
+            return match self.rng.below(8) {
+                0 => "1".into(),
+                1 => "\"s\"".into(),
+                2 => "true".into(),
+                3 => "null".into(),
+                4 => format!("\"i {{{}}} j {{{}}}\"", name(self), name(self)),
+                5 => "[]".into(),
+                _ => name(self),
+            };
+        }
+        let d = depth - 1;
+        match self.rng.below(12) {
+            0..=2 => {
+                let op = BINOPS[self.rng.below(BINOPS.len() as u64) as usize].1;
+                format!("({} {op} {})", self.wild_expr(d), self.wild_expr(d))
+            }
+            3 => format!("({} {})", ["not", "minus"][self.rng.below(2) as usize], self.wild_expr(d)),
+            4 => format!("{}[{}]", self.wild_expr(d), self.wild_expr(d)),
+            5 => format!("[{}, {}]", self.wild_expr(d), self.wild_expr(d)),
+            6 | 7 => {
+                let f = if self.rng.chance(1, 3) { *self.rng.pick(GLOBAL_NAMES) } else { *self.rng.pick(FNS) };
+                let n = self.rng.below(3);
+                let args: Vec<String> = (0..n).map(|_| self.wild_expr(d)).collect();
+                format!("{f}({})", args.join(", "))
+            }
+            8..=10 => {
+                let m = *self.rng.pick(MEMBER_NAMES);
+                let n = self.rng.below(3);
+                let args: Vec<String> = (0..n).map(|_| self.wild_expr(d)).collect();
+                let recv = if self.rng.chance(1, 2) { name(self) } else { format!("({})", self.wild_expr(d)) };
+                format!("{recv}.{m}({})", args.join(", "))
+            }
+            _ => format!("({}).q", self.wild_expr(d)),
+        }
+    }
+
+    fn declare(&mut self, name: &str, t: Ty) {
+        let fr = self.frames.last_mut().unwrap();
+        if let Some(e) = fr.vars.iter_mut().find(|(n, _)| n == name) {
+            e.1 = t;
+        } else {
+            fr.vars.push((name.to_string(), t));
+        }
+    }
+
+    fn nested<T>(&mut self, tag: char, f: impl FnOnce(&mut Self) -> T) -> T {
+        self.path.push(tag);
+        let r = f(self);
+        self.path.pop();
+        r
+    }
+
+    /// A violating statement for a statement-position opportunity.
+    fn bad_stmt(&mut self) -> String {
+        loop {
+            let (rule, text): (&str, String) = match self.rng.below(10) {
+                0 => ("assignUndeclared", format!("{} get 1", self.unbound_name())),
+                1 if self.loops == 0 => ("breakOutside", "comot".into()),
+                2 if self.loops == 0 => ("continueOutside", "next".into()),
+                3 if !self.in_fn => ("returnOutside", (if self.rng.chance(1, 2) { "return 1" } else { "return null" }).to_string()),
+                4 => ("reservedVar", format!("make {} get 1", self.rng.pick(GLOBAL_NAMES))),
+                5 => ("reservedFn", format!("do {}() start end", self.rng.pick(GLOBAL_NAMES))),
+                6 => {
+                    self.fresh += 1;
+                    ("reservedParam", format!("do r{}(a, {}) start end", self.fresh, self.rng.pick(GLOBAL_NAMES)))
+                }
+                7 => {
+                    self.fresh += 1;
+                    ("dupParam", format!("do r{}(a, b, a) start end", self.fresh))
+                }
+                8 => {
+                    let own = self.frames.last().unwrap().fns.clone();
+                    if !own.is_empty() && self.rng.chance(2, 3) {
+                        let (n, _) = self.rng.pick(&own).clone();
+                        ("dupFunction", format!("do {n}() start end"))
+                    } else {
+                        self.fresh += 1;
+                        let n = format!("r{}", self.fresh);
+                        // both definitions are hoisted: register the name so that later code may call it
+                        self.frames.last_mut().unwrap().fns.push((n.clone(), 0));
+                        ("dupFunction", format!("do {n}() start end\ndo {n}(a) start end"))
+                    }
+                }
+                _ => continue,
+            };
+            self.mark(rule, "stmt");
+            return text;
+        }
+    }
+
+    fn cond(&mut self, site: &str) -> String {
+        if !self.wild && self.hit() {
+            self.mark("tyCond", site);
+            return ["1", "\"a\"", "[true]", "(1 add 2)"][self.rng.below(4) as usize].to_string();
+        }
+        self.expr(Ty::Bool, 2, site)
+    }
+
+    fn stmt(&mut self, depth: usize) -> String {
+        self.budget -= 1;
+        if !self.wild && self.hit() {
+            return self.bad_stmt();
+        }
+        let vis = self.visible();
+        let can_nest = depth > 0 && self.budget > 0;
+        loop {
+            match self.rng.below(16) {
+                0..=3 => {
+                    // make: new name, or re-declaration / shadowing of a visible one
+                    let name = if !vis.is_empty() && self.rng.chance(1, 2) { self.rng.pick(&vis).0.clone() } else { (*self.rng.pick(VARS)).to_string() };
+                    let t = [Ty::Num, Ty::Str, Ty::Bool, Ty::Arr, Ty::Unk][self.rng.below(5) as usize];
+                    if self.rng.chance(1, 12) {
+                        self.declare(&name, Ty::Unk);
+                        return format!("make {name}");
+                    }
+                    let e = self.expr(t, 2, "init");
+                    // the checker types a dynamic variable or an index expression as Dynamic
+                    let is_ident = e.chars().all(|c| c.is_ascii_alphanumeric());
+                    let dynamic = (is_ident && self.visible().iter().any(|(n, t)| *n == e && *t == Ty::Dyn))
+                        || (!e.starts_with('[') && !e.starts_with('(') && e.ends_with(']'));
+                    self.declare(&name, if self.wild { Ty::Unk } else if dynamic && t != Ty::Unk { Ty::Dyn } else { t });
+                    return format!("make {name} get {e}");
+                }
+                4 | 5 if !vis.is_empty() || self.wild => {
+                    let name = if self.wild { (*self.rng.pick(VARS)).to_string() } else { self.rng.pick(&vis).0.clone() };
+                    let e = self.expr(Ty::Unk, 2, "rhs");
+                    return format!("{name} get {e}");
+                }
+                6 => {
+                    if let Some(v) = self.var_of(&[Ty::Arr, Ty::Dyn]) {
+                        let i = self.expr(Ty::Num, 1, "idx");
+                        let e = self.expr(Ty::Unk, 1, "rhs");
+                        return format!("{v}[{i}] get {e}");
+                    }
+                }
+                7 => {
+                    if let Some(v) = self.var_of(&[Ty::Arr]) {
+                        return match self.rng.below(3) {
+                            0 => format!("{v}.push({})", self.expr(Ty::Unk, 1, "arg")),
+                            1 => format!("{v}.pop()"),
+                            _ => format!("{v}.reverse()"),
+                        };
+                    }
+                }
+                8 | 9 => {
+                    let e = self.expr(Ty::Unk, 2, "arg");
+                    return format!("shout({e})");
+                }
+                10 if can_nest => {
+                    let c = self.cond("if-cond");
+                    let t = self.nested('I', |g| g.block(depth - 1, false));
+                    if self.rng.chance(1, 2) {
+                        let e = self.nested('I', |g| g.block(depth - 1, false));
+                        return format!("if to say ({c}) start\n{t}\nend if not so start\n{e}\nend");
+                    }
+                    return format!("if to say ({c}) start\n{t}\nend");
+                }
+                11 if can_nest => {
+                    let c = self.cond("loop-cond");
+                    self.loops += 1;
+                    let b = self.nested('L', |g| g.block(depth - 1, false));
+                    self.loops -= 1;
+                    return format!("jasi ({c}) start\n{b}\nend");
+                }
+                12 if can_nest => {
+                    let b = self.nested('B', |g| g.block(depth - 1, false));
+                    return format!("start\n{b}\nend");
+                }
+                13 if self.in_fn || self.wild => {
+                    // (a bare `return` is only generated as the last statement of a body: followed by
+                    // a statement it would parse as `return <expr>`)
+                    let e = self.expr(Ty::Unk, 2, "ret");
+                    return format!("return {e}");
+                }
+                14 if self.loops > 0 || self.wild => {
+                    return (if self.rng.chance(1, 2) { "comot" } else { "next" }).to_string();
+                }
+                15 => {
+                    let fns = self.visible_fns();
+                    if !fns.is_empty() {
+                        let (n, a) = self.rng.pick(&fns).clone();
+                        let args: Vec<String> = (0..a).map(|_| self.expr(Ty::Unk, 1, "arg")).collect();
+                        return format!("{n}({})", args.join(", "));
+                    }
+                }
+                _ => {}
+            }
+        }
+    }
+
+    fn fndef(&mut self, name: &str, arity: usize, depth: usize) -> String {
+        let mut params: Vec<String> = Vec::new();
+        while params.len() < arity {
+            let p = if self.wild { (*self.rng.pick(VARS)).to_string() } else { format!("{}", self.rng.pick(VARS)) };
+            if self.wild || !params.contains(&p) {
+                params.push(p);
+            }
+        }
+        let (loops, in_fn) = (self.loops, self.in_fn);
+        self.loops = 0;
+        self.in_fn = true;
+        self.frames.push(Frame { vars: params.iter().map(|p| (p.clone(), Ty::Dyn)).collect(), fns: Vec::new() });
+        let body = self.nested('F', |g| g.block(depth.saturating_sub(1), true));
+        self.frames.pop();
+        self.loops = loops;
+        self.in_fn = in_fn;
+        format!("do {name}({}) start\n{body}\nend", params.join(", "))
+    }
+
+    /// The statements of one block; its functions are planned first because they are visible
+    /// throughout the block (forward references, recursion).
+    fn block(&mut self, depth: usize, fn_body: bool) -> String {
+        self.frames.push(Frame::default());
+        let n = 1 + self.rng.below(if depth > 1 { 6 } else { 4 }) as usize;
+        let mut plan: Vec<(usize, String, usize)> = Vec::new();
+        if depth > 0 && self.budget > 0 {
+            let nf = match self.rng.below(6) {
+                0 | 1 => 1,
+                2 => 2,
+                _ => 0,
+            };
+            for _ in 0..nf {
+                let name = (*self.rng.pick(FNS)).to_string();
+                if self.wild || !plan.iter().any(|(_, m, _)| *m == name) {
+                    let arity = self.rng.below(3) as usize;
+                    plan.push((self.rng.below(n as u64) as usize, name.clone(), arity));
+                    if !self.frames.last().unwrap().fns.iter().any(|(m, _)| *m == name) {
+                        self.frames.last_mut().unwrap().fns.push((name, arity));
+                    }
+                }
+            }
+        }
+        let mut stmts = Vec::new();
+        for i in 0..n {
+            for (_, name, arity) in plan.clone().iter().filter(|(at, _, _)| *at == i) {
+                stmts.push(self.fndef(name, *arity, depth));
+            }
+            stmts.push(self.stmt(depth));
+        }
+        if fn_body && self.rng.chance(1, 2) {
+            if self.rng.chance(1, 4) {
+                stmts.push("return".to_string());
+            } else {
+                let e = self.expr(Ty::Unk, 1, "ret");
+                stmts.push(format!("return {e}"));
+            }
+        }
+        self.frames.pop();
+        stmts.join("\n")
+    }
+}
+
+fn gen_program(rng: &mut Rng, inject: Option<i64>, wild: bool) -> (String, Option<String>) {
+    let mut g = Gen {
+        rng,
+        frames: Vec::new(),
+        loops: 0,
+        in_fn: false,
+        path: String::new(),
+        inject,
+        injected: None,
+        wild,
+        budget: 14,
+        fresh: 0,
+        nodyn: 0,
+    };
+    let src = g.block(3, false);
+    (src, g.injected)
+}
+
+/// Witnesses of the known defects D-09b/c/d, each under a little random context.
+fn finding(rng: &mut Rng, i: u64) -> (String, String) {
+    let v = ["x", "v", "acc"][rng.below(3) as usize];
+    let f = ["f", "get", "mk"][rng.below(3) as usize];
+    let pre = ["", "make z get 1\n", "do unused() start end\n"][rng.below(3) as usize];
+    let (tag, body) = match i % 15 {
+        12 => ("D-09e:unary-dynamic:reject", format!("do {f}({v}) start return 1 minus (minus {v}) end\nshout({f}(1))")),
+        13 => ("D-09e:unary-dynamic:reject", format!("do {f}({v}) start return true and (not {v}) end\nshout({f}(true))")),
+        14 => ("D-09e:unary-dynamic:reject", format!("do {f}({v}) start return [1, 2][minus {v}] end\nshout({f}(minus 1))")),
+        0 => ("D-09b:return-type-scope:reject", format!("make {v} get \"s\"\nstart\ndo {f}() start make {v} get 1 return {v} end\nshout({f}() minus 1)\nend")),
+        1 => ("D-09b:return-type-scope:accept", format!("make {v} get 1\nstart\ndo {f}() start make {v} get \"s\" return {v} end\nshout({f}() minus 1)\nend")),
+        2 => ("D-09c:method-literal-arg:accept", "shout(\"abc\".find(5))".to_string()),
+        3 => ("D-09c:method-literal-arg:accept", "shout(\"abc\".slice(\"a\", 1))".to_string()),
+        4 => ("D-09c:method-literal-arg:accept", "shout(\"abc\".replace(1, \"b\"))".to_string()),
+        5 => ("D-09c:bare-member:accept", format!("make {v} get \"s\"\nshout({v}.len)")),
+        6 => ("D-09c:call-of-call:accept", format!("do {f}() start return 1 end\nshout({f}()())")),
+        7 => ("D-09c:index-assign-call-root:accept", format!("do {f}() start return [1] end\n{f}()[0] get 2")),
+        8 => ("D-09d:operator-table:accept", "shout(\"a\" add true)".to_string()),
+        9 => ("D-09d:operator-table:accept", "shout(\"a\" add null)".to_string()),
+        10 => ("D-09d:operator-table:accept", "shout(null add \"a\")".to_string()),
+        _ => ("D-09d:operator-table:accept", "shout(\"a\" add [1])".to_string()),
+    };
+    (format!("finding:{tag}"), format!("{pre}{body}"))
+}
+
+fn generate(args: &[String]) -> i32 {
+    let seed = util::opt_u64(args, "--seed", 1);
+    let n = util::opt_u64(args, "--n", 1000);
+    let kind = util::opt(args, "--kind").unwrap_or("valid");
+    let mut rng = Rng::new(seed ^ 0xC09);
+    let mut out = Out::new();
+    let mut produced = 0;
+    let mut tries = 0u64;
+    while produced < n && tries < n * 20 {
+        tries += 1;
+        let (src, exp) = match kind {
+            "valid" => {
+                let (s, _) = gen_program(&mut rng, None, false);
+                (s, Some("ok".to_string()))
+            }
+            "viol" => {
+                let at = rng.below(40) as i64;
+                let (s, inj) = gen_program(&mut rng, Some(at), false);
+                match inj {
+                    Some(tag) => (s, Some(tag)),
+                    None => continue, // the program had fewer opportunities than `at`
+                }
+            }
+            "mixed" => {
+                let (s, _) = gen_program(&mut rng, None, true);
+                (s, None)
+            }
+            "findings" => {
+                let (tag, s) = finding(&mut rng, produced);
+                (s, Some(tag))
+            }
+            _ => {
+                eprintln!("unknown --kind {kind}");
+                return 2;
+            }
+        };
+        // only programs the parser accepts without diagnostics (the CLI resolves nothing else)
+        let arena = Arena::new(pipeline::ARENA_CAP).unwrap();
+        if !pipeline::with_parsed(&src, &arena, |_, d| d.diagnostics.is_empty()) {
+            continue;
+        }
+        out.line(&request_line("resolve", &src, exp.as_deref()));
+        produced += 1;
+    }
+    0
+}
